@@ -14,6 +14,17 @@ func (p *Parser) parseBlock(parser *Parser) (Node, error) {
 	blockName := parser.tokens[parser.tokenIndex].Value
 	parser.tokenIndex++
 
+	// A template defines a block once: with two definitions of one name the
+	// first would be rendered in both places, and a block nested in a block
+	// of its own name would render itself without end
+	if parser.blockNames[blockName] {
+		return nil, fmt.Errorf("the block '%s' has already been defined in this template (line %d)", blockName, blockLine)
+	}
+	if parser.blockNames == nil {
+		parser.blockNames = make(map[string]bool)
+	}
+	parser.blockNames[blockName] = true
+
 	// Expect the block end token
 	if parser.tokenIndex >= len(parser.tokens) || !isBlockEndToken(parser.tokens[parser.tokenIndex].Type) {
 		return nil, fmt.Errorf("expected block end token after block name at line %d", blockLine)
